@@ -133,10 +133,10 @@ class _connect:
         partner_name = T0[G.partner(seat)]
         bad = disj(ver != 18, T0[seat] is not None,
                    conj(partner_name is not None, opt_or(partner_name, '') != team))
+        one_error_line = (len(sent(self)) == len(sent(old.self)) + 1) and \
+            starts_with(sent(self)[-1], 'ERROR: ')
         return implies(bad, conj(not result, same(self.team_names, T0),
-                                 self.connection_socket.closed,
-                                 len(sent(self)) == len(sent(old.self)) + 1,
-                                 starts_with(sent(self)[-1], 'ERROR: ')))
+                                 self.connection_socket.closed, one_error_line))
 
     # C20 ("... and the server keeps accepting"), safety half: whatever the decision -- refused,
     # or seated -- the main thread, which waits for this verdict before it accepts the next
@@ -168,9 +168,10 @@ class _connect:
     # a client that is admitted is told both team names as they stand in the seat table
     def ensures_admitted_client_is_told_both_teams(self, result):
         T = self.team_names
+        last = sent(self)[-1] if len(sent(self)) > 0 else None
         return implies(result, conj(
             forall(Player, lambda p: T[p] is not None), valid(T),
-            sent(self)[-1] == line(PR.enc_teams(opt_or(T[N], ''), opt_or(T[E], '')))))
+            last == line(PR.enc_teams(opt_or(T[N], ''), opt_or(T[E], '')))))
 
 
 # ---- C10, seat layer: what a seat thread sends to its own client -------------------------------
